@@ -43,7 +43,8 @@ QUERY_OPS = ['spine_types', 'spine_types', 'get_all_tokens', 'get_all_tokens_enc
 # queries whose result is a container built for the caller (NOT get_leaves/get_header_stage, which hand out the tree's own lists)
 RESULT_CONTAINERS = ('get_all_tokens', 'get_all_tokens_encodings', 'get_unique_tokens', 'get_unique_token_encodings', 'frequencies',
                      'get_metacomments', 'get_header_nodes', 'get_spine_ids', 'spine_types', 'tokens_to_encodings')
-BACKGROUND_OPS = ['bg_loads', 'bg_loads_damaged', 'bg_concat', 'bg_transpose_pitch', 'bg_agnostic', 'bg_export_options', 'bg_to_transposed', 'bg_importer_history']
+BACKGROUND_OPS = ['bg_loads', 'bg_loads_damaged', 'bg_concat', 'bg_transpose_pitch', 'bg_agnostic', 'bg_export_options', 'bg_to_transposed', 'bg_importer_history',
+                  'bg_load_file']
 
 
 def gen_cat_arg(rng):
@@ -125,7 +126,8 @@ class C14:
                    'no thread interleavings: kernpy promises no thread safety and C14 does not quantify over schedules']
     PROBES = ['natural_raise', 'raise_mid_export', 'interrupt_delivered', 'memerr_delivered', 'range_inside_split', 'options_object_reused',
               'doc_with_error_tokens', 'io_fault_on_dump', 'compared_with_fresh', 'background_ops', 'graph_compared', 'two_imports_battery',
-              'dump_compared', 'args_checked', 'caller_edited_a_result', 'reentrant_callback_delivered', 'argument_object_reused', 'reference_deferred', 'target_clobbered_between_two_dumps']
+              'dump_compared', 'args_checked', 'caller_edited_a_result', 'reentrant_callback_delivered', 'argument_object_reused', 'reference_deferred', 'target_clobbered_between_two_dumps',
+              'graph_to_a_narrow_stdout', 'background_file_import', 'reader_setting_canaries_compared']
 
     # ================================================================ plan
     def gen_plan(self, seed, index, tier):
@@ -183,6 +185,10 @@ class C14:
                 op = {'op': 'dump', 'opts': gen_dumps_opts(rng, raising_bias=0.1), 'name': rng.choice(['o.krn', 'sub/o.krn', 'a/b/c.ekrn']),
                       # the same dump twice, the file replaced by someone else in between: the second one must write again
                       'clobber_then_again': rng.random() < 0.3}
+                if faulty and rng.random() < 0.4:
+                    # the same dump once more: if the first one failed half-way, the second one is an ordinary call
+                    ops.append(op)
+                    op = dict(op, clobber_then_again=False)
             else:
                 op = {'op': 'graph', 'to': rng.choice(['file', 'file', 'stdout'])}
             if faulty and kind in ('dumps', 'query', 'export_reused', 'graph') and frng.random() < 0.22:
@@ -206,7 +212,9 @@ class C14:
                 fsplan['faults'].append({'kind': fk, 'at': {'byte': frng.randint(0, 120)}, 'sticky': fk == 'enospc_write', 'path': target})
         return {'property': self.PROPERTY, 'config': 'fault_injecting' if faulty else 'fault_free', 'doc': doc.to_json(), 'damage': damage,
                 'others': others, 'ops': ops, 'fs': fsplan, 'reuse_argument_objects': erng.random() < 0.4, 'defer_reference': erng.random() < 0.4,
-                'logging': 'DEBUG' if erng.random() < 0.08 else 'default'}
+                'logging': 'DEBUG' if erng.random() < 0.08 else 'default',
+                # the process's stdout, ONE stream object for the whole run: utf-8, or a strict ascii/latin-1 text layer (LANG=C)
+                'stdout': 'utf-8' if erng.random() < 0.8 else erng.choice(['ascii', 'latin-1'])}
 
     def summarize(self, plan):
         return {'config': plan['config'], 'text': self._text(plan), 'ops': plan['ops'], 'fs_faults': plan['fs'].get('faults')}
@@ -306,6 +314,16 @@ class C14:
         fs.cwd = PREFIX
 
         norm_graph = self._norm_graph
+        stdout_enc = plan.get('stdout', 'utf-8')
+        run_stdout = io.TextIOWrapper(io.BytesIO(), encoding=stdout_enc, errors='strict', write_through=True)
+
+        def captured_stdout(fn):
+            """Run fn with the run's ONE stdout object in place; return what it printed (the stream is shared by all calls)."""
+            start = run_stdout.buffer.tell() if not run_stdout.closed else 0
+            with contextlib.redirect_stdout(run_stdout):
+                fn()
+            data = run_stdout.buffer.getvalue()[start:]
+            return data.decode(stdout_enc, 'replace')
 
         def norm_tokens(toks):
             return [token_core(t) for t in toks]
@@ -407,10 +425,9 @@ class C14:
                 return fs.get(path)
             if k == 'graph':
                 if op['to'] == 'stdout':
-                    buf = io.StringIO()
-                    with contextlib.redirect_stdout(buf):
-                        kp.graph(d, None)
-                    return norm_graph(buf.getvalue())
+                    if stdout_enc != 'utf-8':
+                        bump(probes, 'graph_to_a_narrow_stdout')
+                    return norm_graph(captured_stdout(lambda: kp.graph(d, None)))
                 path = f'{PREFIX}/{side}/g.dot'
                 kp.graph(d, path)
                 data = fs.get(path)
@@ -602,6 +619,14 @@ class C14:
                         o.to_transposed(['M2', 'P5', 'dd2', 'AA5'][op['pick'] % 4], 'up' if op['pick'] % 2 else 'down')
                     except Exception:
                         pass
+            elif k == 'bg_load_file':
+                # an unrelated FILE import in the same process (process-wide reader settings are shared state too)
+                path = f'{PREFIX}/bg/other{op["which"] % 2}.krn'
+                fs.mkdirs(f'{PREFIX}/bg')
+                fs.put(path, t.encode('utf-8'))
+                tmp, _ = kp.load(path)
+                kp.dumps(tmp)
+                bump(probes, 'background_file_import')
             elif k == 'bg_importer_history':
                 imp = createImporter(['**kern', '**text', '**mxhm', '**root'][op['pick'] % 4])
                 for tok in ('4c', '4c€', '=1', '*clefG2', 'zz', '4e'):
@@ -616,7 +641,12 @@ class C14:
             except Exception as e:
                 return ('exc', type(e).__name__)
 
+        stream_state = {'reported': False}
+
         def after_op(opname, idx):
+            if run_stdout.closed and not stream_state['reported']:
+                stream_state['reported'] = True
+                add_v('stream-closed', f'stream-closed/stdout/by={opname}', 'the caller\'s stdout stays open', 'closed', op=opname, index=idx)
             s = doc_snapshot(L)
             where = subsumes(snap0, s)
             if where:
@@ -649,6 +679,23 @@ class C14:
         except Exception as e:
             add_v('import-raised', 'import-raised/second', 'a document', type(e).__name__)
         after_op('battery', -1)
+
+        # ---- canaries: texts whose import leans on process-wide reader settings (csv field limit, quoting); only in runs that
+        #      import a file in the background, where such a setting could have been touched
+        canaries = None
+        if any(o['op'] == 'bg_load_file' for o in plan['ops']):
+            canary_texts = ['**kern\t**text\n4c\t' + 'la' * 65600 + '\n*-\t*-\n', '**kern\t**text\n4c\t"quo\n4d\tted"\n*-\t*-\n']
+
+            def canary_outcomes():
+                out = []
+                for ct in canary_texts:
+                    try:
+                        cd, ce = kp.loads(ct)
+                        out.append(['ok', len(ce), digest_of(kp.dumps(cd))])
+                    except Exception as e:
+                        out.append(['exc', type(e).__name__])
+                return out
+            canaries = canary_outcomes()
 
         counters = {'compared': 0, 'dumps': 0}
         pending = []
@@ -806,6 +853,11 @@ class C14:
         if fs.escapes:
             from simkit.runner import HarnessError
             raise HarnessError('closure guard: real-path I/O from kernpy during a simulated run: ' + '; '.join(fs.escapes[:3]))
+        if canaries is not None:
+            again = canary_outcomes()
+            bump(probes, 'reader_setting_canaries_compared')
+            if again != canaries:
+                add_v('imports-distinguishable', 'imports-distinguishable/same-text-before-and-after-the-history', canaries, again)
         # ---- end of run: fixed battery on L equals the battery on a fresh copy
         try:
             Fe, Fe_err = fresh()
